@@ -910,65 +910,7 @@ func checkC08(r *Run) {
 	if a.lost(r3) {
 		return
 	}
-	for _, api := range retryAPIs {
-		if api.API == "Publish" {
-			continue
-		}
-		req := c.Method("RetryClient", api.Req)
-		base := c.Method("BaseClient", api.Base)
-		g, call := c.requestClosure(req, base)
-		if g == nil {
-			r3.Lost("(*RetryClient)."+api.Req+"/closure", "request closure not found")
-			continue
-		}
-		k := FuncName(g) + "/applyTo"
-		var apply *ssa.Call
-		eachInstr(g, func(in ssa.Instruction) {
-			kk, ok := in.(*ssa.Call)
-			if !ok {
-				return
-			}
-			callee := c.StaticCalleeOf(&kk.Call)
-			if callee == nil || callee.Name() != "applyTo" {
-				return
-			}
-			for _, arg := range kk.Call.Args {
-				if _, isSE := isAddrOfField(arg, a.SubEst); isSE {
-					apply = kk
-				}
-			}
-		})
-		if apply == nil {
-			// the update written out in the request itself: a store to the list of a value built from
-			// the list and the request's own argument
-			if st, why := c.directListUpdate(g, a.SubEst, req.Params[len(req.Params)-1], api.Req == "subscribe"); st != nil {
-				if !Dominated(g, call, func(in ssa.Instruction) bool { return in == ssa.Instruction(st) }, PathQ{}) {
-					r3.Bad(k, st.Pos(), "the established list is updated only after BaseClient.%s returned: by then the request's arguments may have been rewritten by the library (Subscribe overwrites the requested QoS with the granted one), and a failed request is not recorded at all", api.Base)
-					continue
-				}
-				r3.OK(k, st.Pos(), "%s; the store dominates BaseClient.%s", why, api.Base)
-				continue
-			}
-			r3.Bad(k, g.Pos(), "the %s request does not record its effect in the established-subscription list: a later reconnect without session re-subscribes a stale view", api.Req)
-			continue
-		}
-		// operand = the enclosing request's own parameter
-		reqParam := req.Params[len(req.Params)-1]
-		src := apply.Call.Args[0]
-		if c.Resolve(stripConv(c.Resolve(src))) != ssa.Value(reqParam) {
-			r3.Bad(k, apply.Pos(), "what is applied to the established list is not the request's own argument")
-			continue
-		}
-		if wantRecv := map[string]string{"subscribe": "subscriptions", "unsubscribe": "unsubscriptions"}[api.Req]; typeName(apply.Call.Args[0].Type()) != wantRecv {
-			r3.Bad(k, apply.Pos(), "the %s request applies a %s change to the established list", api.Req, typeName(apply.Call.Args[0].Type()))
-			continue
-		}
-		if !Dominated(g, call, func(in ssa.Instruction) bool { return in == ssa.Instruction(apply) }, PathQ{}) {
-			r3.Bad(k, apply.Pos(), "the established list is updated only after BaseClient.%s returned: by then the request's arguments may have been rewritten by the library (Subscribe overwrites the requested QoS with the granted one), and a failed request is not recorded at all", api.Base)
-			continue
-		}
-		r3.OK(k, apply.Pos(), "applyTo(&c.subEstablished) with the request's own argument dominates BaseClient.%s", api.Base)
-	}
+	c.ruleEstablishedApply(r3, a)
 	// Resubscribe task
 	if rs := c.Method("RetryClient", "Resubscribe"); rs != nil {
 		_, task := c.taskClosureOf(a, rs)
@@ -1041,6 +983,9 @@ func checkC08(r *Run) {
 				}
 				if okElem {
 					r3.OK(FuncName(task), issue.Pos(), "every element of a snapshot of subEstablished is issued through c.subscribe")
+					// … every element: the loop over the snapshot is left only when the snapshot is exhausted, and no way round
+					// the loop skips the request
+					c.ruleResubscribeExhausts(r3, task, issue, snap)
 				} else {
 					r3.Bad(FuncName(task)+"/issue", issue.Pos(), "what Resubscribe issues is not the elements of its snapshot of the established list")
 				}
@@ -1204,4 +1149,138 @@ func (c *Ctx) directListUpdate(g *ssa.Function, fld *types.Var, reqParam *ssa.Pa
 		}
 	})
 	return found, why
+}
+
+// ruleResubscribeExhausts: the loop in which Resubscribe issues the elements of its snapshot ends only by running out of
+// elements (its only exit is the bound test of the loop against len(snapshot)), and every iteration issues its element.
+func (c *Ctx) ruleResubscribeExhausts(rr *RuleRep, task *ssa.Function, issue *ssa.Call, snap ssa.Value) {
+	key := FuncName(task) + "/all"
+	header, blocks := innermostLoop(issue.Block())
+	if header == nil {
+		rr.Bad(key, issue.Pos(), "Resubscribe issues one element of its snapshot, not each of them in a loop")
+		return
+	}
+	isLenOfSnap := func(v ssa.Value) bool {
+		call, ok := stripConv(v).(*ssa.Call)
+		if !ok {
+			return false
+		}
+		bi, isB := call.Call.Value.(*ssa.Builtin)
+		return isB && bi.Name() == "len" && len(call.Call.Args) == 1 && c.Resolve(call.Call.Args[0]) == c.Resolve(snap)
+	}
+	for b := range blocks {
+		for k, s := range b.Succs {
+			if blocks[s] || edgeInfeasible(b, k) {
+				continue
+			}
+			// an edge out of the loop: the bound test, on the edge where the index has reached len(snapshot)
+			iff := blockIf(b)
+			good := false
+			if iff != nil {
+				if bin, ok := iff.Cond.(*ssa.BinOp); ok {
+					switch {
+					case (bin.Op == token.LSS || bin.Op == token.NEQ) && isLenOfSnap(bin.Y) && k == 1,
+						(bin.Op == token.GEQ || bin.Op == token.EQL) && isLenOfSnap(bin.Y) && k == 0,
+						(bin.Op == token.GTR) && isLenOfSnap(bin.X) && k == 1,
+						(bin.Op == token.LEQ) && isLenOfSnap(bin.X) && k == 0:
+						good = true
+					}
+				}
+			}
+			if !good {
+				pos := issue.Pos()
+				if len(b.Instrs) > 0 && b.Instrs[len(b.Instrs)-1].Pos().IsValid() {
+					pos = b.Instrs[len(b.Instrs)-1].Pos()
+				}
+				rr.Bad(key, pos, "the loop that re-issues the established subscriptions can be left before the snapshot is exhausted: the list was reset when the snapshot was taken, so the subscriptions not reached are in neither the list nor the retry queue and are never re-established")
+				return
+			}
+		}
+	}
+	// every way round the loop passes the request
+	for _, s := range header.Succs {
+		if !blocks[s] || s == header {
+			continue
+		}
+		via := -1
+		for i, p := range s.Preds {
+			if p == header {
+				via = i
+			}
+		}
+		if via < 0 {
+			continue
+		}
+		if _, skip := canReachFrom(task, nil, s, via, func(in ssa.Instruction) bool {
+			return in == header.Instrs[0]
+		}, PathQ{BlockInstr: func(in ssa.Instruction) bool { return in == ssa.Instruction(issue) }}); skip {
+			rr.Bad(key, issue.Pos(), "an iteration of the loop over the snapshot can skip the request: that subscription is dropped from the client's view without being re-established")
+			return
+		}
+	}
+	rr.OK(key, issue.Pos(), "the loop over the snapshot ends only when the snapshot is exhausted and every iteration issues its element")
+}
+
+// ruleEstablishedApply (R-C08-3, R-C05-11): the subscribe/unsubscribe request closures record the request's own argument in
+// the established-subscription list before the request is issued (Subscribe overwrites the requested QoS in place).
+func (c *Ctx) ruleEstablishedApply(r3 *RuleRep, a *retryAnchors) {
+	for _, api := range retryAPIs {
+		if api.API == "Publish" {
+			continue
+		}
+		req := c.Method("RetryClient", api.Req)
+		base := c.Method("BaseClient", api.Base)
+		g, call := c.requestClosure(req, base)
+		if g == nil {
+			r3.Lost("(*RetryClient)."+api.Req+"/closure", "request closure not found")
+			continue
+		}
+		k := FuncName(g) + "/applyTo"
+		var apply *ssa.Call
+		eachInstr(g, func(in ssa.Instruction) {
+			kk, ok := in.(*ssa.Call)
+			if !ok {
+				return
+			}
+			callee := c.StaticCalleeOf(&kk.Call)
+			if callee == nil || callee.Name() != "applyTo" {
+				return
+			}
+			for _, arg := range kk.Call.Args {
+				if _, isSE := isAddrOfField(arg, a.SubEst); isSE {
+					apply = kk
+				}
+			}
+		})
+		if apply == nil {
+			// the update written out in the request itself: a store to the list of a value built from
+			// the list and the request's own argument
+			if st, why := c.directListUpdate(g, a.SubEst, req.Params[len(req.Params)-1], api.Req == "subscribe"); st != nil {
+				if !Dominated(g, call, func(in ssa.Instruction) bool { return in == ssa.Instruction(st) }, PathQ{}) {
+					r3.Bad(k, st.Pos(), "the established list is updated only after BaseClient.%s returned: by then the request's arguments may have been rewritten by the library (Subscribe overwrites the requested QoS with the granted one), and a failed request is not recorded at all", api.Base)
+					continue
+				}
+				r3.OK(k, st.Pos(), "%s; the store dominates BaseClient.%s", why, api.Base)
+				continue
+			}
+			r3.Bad(k, g.Pos(), "the %s request does not record its effect in the established-subscription list: a later reconnect without session re-subscribes a stale view", api.Req)
+			continue
+		}
+		// operand = the enclosing request's own parameter
+		reqParam := req.Params[len(req.Params)-1]
+		src := apply.Call.Args[0]
+		if c.Resolve(stripConv(c.Resolve(src))) != ssa.Value(reqParam) {
+			r3.Bad(k, apply.Pos(), "what is applied to the established list is not the request's own argument")
+			continue
+		}
+		if wantRecv := map[string]string{"subscribe": "subscriptions", "unsubscribe": "unsubscriptions"}[api.Req]; typeName(apply.Call.Args[0].Type()) != wantRecv {
+			r3.Bad(k, apply.Pos(), "the %s request applies a %s change to the established list", api.Req, typeName(apply.Call.Args[0].Type()))
+			continue
+		}
+		if !Dominated(g, call, func(in ssa.Instruction) bool { return in == ssa.Instruction(apply) }, PathQ{}) {
+			r3.Bad(k, apply.Pos(), "the established list is updated only after BaseClient.%s returned: by then the request's arguments may have been rewritten by the library (Subscribe overwrites the requested QoS with the granted one), and a failed request is not recorded at all", api.Base)
+			continue
+		}
+		r3.OK(k, apply.Pos(), "applyTo(&c.subEstablished) with the request's own argument dominates BaseClient.%s", api.Base)
+	}
 }
